@@ -13,10 +13,16 @@ def split_ops(out_line):
 
 def op_fields(op):
     """'ok last=[...] ref=[...] rem=12' -> (result, last, ref, rem)"""
-    m = re.match(r"(\S+) last=(\[.*?\]|-) ref=(\[.*?\]|-) rem=(\d+)$", op)
+    m = re.match(r"(\S+) last=(\[.*?\]|-) ref=(\[.*?\]|-) rem=(\d+) run=\d+$", op)
     if not m:
         return (op, None, None, None)
     return (m.group(1), m.group(2), m.group(3), int(m.group(4)))
+
+
+def op_run(op):
+    """the carried-over option bits reported after an op"""
+    m = re.search(r" run=(\d+)$", op)
+    return int(m.group(1)) if m else None
 
 
 def is_crash(s):
@@ -212,7 +218,7 @@ class C05(DecProp):
     thm_module = "H263V.Thm.C05"
     rule = ("P lines: (a) histories containing rejected pictures at every depth (header, macroblock header, block data, prediction) followed by valid continuations; "
             "(b) every byte split of a valid picture across two deliveries (append part 1, decode, append part 2, decode) against the single delivery.  On the implementation's "
-            "own output: after a call that returned an error the last picture, the reference picture and the number of unread bits are those before the call (plus the bits appended), "
+            "own output: after a call that returned an error the last picture, the reference picture, the carried-over option bits (hook `verif_running_options`) and the number of unread bits are those before the call (plus the bits appended), "
             "and a call that failed for lack of data, repeated after the rest was appended, yields the single-delivery picture; "
             "(c) `leak`: a PLUSPTYPE picture that announces options (modified quantization, unrestricted vectors, ...) and is rejected after its header, followed by a picture "
             "that carries no OPPTYPE of its own; (d) pictures of 8 KiB and more split, or corrupted, beyond their first 4 KiB.  Non-trivial: the line contains a failed call "
@@ -287,10 +293,16 @@ class C05(DecProp):
             ops_in = c.split(" ")[2].split(";") if len(c.split(" ")) > 2 else []
             ops_out = split_ops(i)
             prev = ("-", "-", 0)
+            prev_run = 0
             for oi, oo in zip(ops_in, ops_out):
                 r, l, f, rem = op_fields(oo)
                 if l is None:
                     break
+                run = op_run(oo)
+                if (r.startswith("err") or r in ("app", "cleanup")) and run != prev_run:
+                    fails.append({"case": c, "impl": i[:400], "why": f"after `{oi[:12]}` -> {r}: carried-over options {run}, before the call {prev_run}"})
+                    break
+                prev_run = run
                 added = (len(oi) - 2) // 2 * 8 if oi[:2] in ("d:", "a:") else 0
                 if oi[:2] == "r:":
                     prev = (prev[0], prev[1], (len(oi) - 2) // 2 * 8)
